@@ -132,6 +132,9 @@ def quiet(fn):
 
 
 BW = lambda: 0.3 * gv.fs  # noqa: E731
+# an ABSOLUTE cutoff that stays the same number while fs moves inside a decade (0.03..0.3 fs): the same (n, BW) arguments are then met under
+# several sampling rates in one history - a filter design memoised without fs in its key would be reused on the wrong grid (round 6, C14-r6s1)
+BWq = lambda: float(10.0 ** np.floor(np.log10(0.3 * gv.fs)))  # noqa: E731
 
 # name -> (callable(pool), stochastic?, rng-sensitive?, weight)
 BLOCKS = {
@@ -157,6 +160,14 @@ BLOCKS = {
     "PD_2pol": (lambda p: D.PD(p.x2, BW(), 1.0, 300.0, 50.0, "thermal-shot", 1e-8, 3.0), True, True),
     "PD_ase_shot": (lambda p: D.PD(p.x1, BW(), 0.7, 300.0, 50.0, "ASE-shot", 1e-8), True, True),
     "PD_ase_thermal": (lambda p: D.PD(p.x1, BW(), 0.7, 300.0, 50.0, "ase-thermal"), True, True),
+    "LPF_q": (lambda p: D.LPF(p.e, BWq()), False, False),
+    "LPF_q_n2": (lambda p: D.LPF(p.ua, BWq(), 2, None, True), False, False),
+    "BPF_q": (lambda p: D.BPF(p.x2, BWq()), False, False),
+    "PD_q": (lambda p: D.PD(p.x1, BWq(), 0.8, 300.0, 50.0, "thermal-only"), True, True),
+    "EDFA_q": (lambda p: D.EDFA(p.x1, 10.0, 4.0, BWq()), True, True),
+    "DAC_q": (lambda p: D.DAC(p.bits, 0.0, 1.0, "nrz", BWq()), False, False),
+    "MZM_q": (lambda p: D.MZM(p.x1, p.u, 1.0, 4.0, 1.0, 20.0, "x", BWq()), False, False),
+    "ook.DSP_q": (lambda p: OOK.DSP(p.e, BWq()), True, False),
     "ADC": (lambda p: D.ADC(p.e, None, 4, "n"), False, False),
     "ADC_v": (lambda p: D.ADC(p.ua, None, 3), False, False),
     "GET_EYE": (lambda p: D.GET_EYE(p.e, 64), True, False),
@@ -184,8 +195,8 @@ BLOCKS = {
     "utils": (lambda p: (U.db(p.ua ** 2 + 1), U.Q(p.ua), U.dec2bin(37, 8), U.str2array("1 2;3 4"), U.shortest_int(p.ua, 50), U.rcos(p.ua, 0.5, 1.0), U.si(gv.fs, "Hz")), False, False),
     "typing": (lambda p: (p.x2("w", True), p.e[3:17:2], p.x1 + p.x1, p.e * 2.0, p.e > 0.5, p.x2.power(), p.e.w(True), p.x1.copy()), False, False),
 }
-SLOW = {"GET_EYE", "ook.DSP", "FBG", "FBG_fixed", "FIBER_nl"}
-MIN_SPS = {"DAC_gauss": 2, "GET_EYE": 4, "ook.DSP": 4, "lab.GET_EYE_v2": 4}
+SLOW = {"GET_EYE", "ook.DSP", "ook.DSP_q", "FBG", "FBG_fixed", "FIBER_nl"}
+MIN_SPS = {"DAC_gauss": 2, "GET_EYE": 4, "ook.DSP": 4, "ook.DSP_q": 4, "lab.GET_EYE_v2": 4}
 EVEN_SPS = {"lab.GET_EYE_v2"}      # its +-5% window is centred on a sample only for even sps (otherwise it holds no sample at all)   # documented / structural domain of the block (C05: Gaussian DAC for sps >= 2; eye needs samples per slot)
 BLOCK_NAMES = sorted(BLOCKS)
 
@@ -401,7 +412,8 @@ import os as _os
 import subprocess as _sp
 import sys as _sys
 
-CHANGES = ["wavelength", "wavelength-near", "wavelength-near", "N", "sps-same-fs", "R", "custom", "none", "clean-reconfigure"]
+CHANGES = ["wavelength", "wavelength-near", "wavelength-near", "N", "sps-same-fs", "R", "custom", "none", "clean-reconfigure", "fs-near", "fs-near", "fs-near"]
+Q_BLOCKS = ["LPF_q", "LPF_q_n2", "BPF_q", "PD_q", "EDFA_q", "DAC_q", "MZM_q", "ook.DSP_q", "LPF_q", "PD_q"]
 
 
 @st.composite
@@ -426,6 +438,12 @@ def s_fresh(draw):
     elif how == "custom":
         b["custom"] = {"alpha": draw(st.floats(-1, 1, allow_nan=False))}
     blk = draw(st.one_of(st.sampled_from(BLOCK_NAMES), st.sampled_from(["FBG_fixed", "FIBER_nl", "DM", "FIBER_lin", "LPF", "BPF", "EDFA", "PD", "PD_ase_shot", "PD_ase_thermal", "PD_2pol", "LASER", "DAC_gauss", "typing", "utils.spectral", "GET_EYE"])))
+    if how == "fs-near":
+        # the sampling rate moves by a factor 2..8 INSIDE a decade: blocks called with the same absolute cutoff (BWq) under both rates
+        a["R"] = b["R"] = draw(st.sampled_from([1e9, 10e9, 1e8]))
+        a["sps"], b["sps"] = draw(st.permutations([4, 8, 16, 32]))[:2]
+        a["N"] = b["N"] = None
+        blk = draw(st.sampled_from(Q_BLOCKS))
     if how == "wavelength-near":
         # a band wide enough to hold a fixed 193.4 THz grating under every one of these carriers; blocks whose result depends on gv.f0
         a["R"], a["sps"], b["R"], b["sps"] = 25e9, 16, 25e9, 16
@@ -523,7 +541,7 @@ def machine(ctx):
 PARTS = [Part("history", eval_history, kind="machine", machine=machine, quick=120, thorough=1200, shards=16, quick_shards=8, steps_quick=30, steps_thorough=60,
               rule="see RULE"),
          Part("fresh", e_fresh, s_fresh(), quick=8, thorough=80, shards=16, quick_shards=8, shrink=False,
-              rule="configure A, call, change ONE thing (wavelength / N / sps at the same fs / R / custom / clean+reconfigure / nothing), call again: the second "
+              rule="configure A, call, change ONE thing (wavelength / N / sps at the same fs / R / fs within a decade with the same absolute cutoff / custom / clean+reconfigure / nothing), call again: the second "
                    "result is bit-identical to the same call in a fresh interpreter that only executed the configuration steps (history-free oracle)")]
 
 
